@@ -33,9 +33,12 @@ Lattice == {v \in CF : ~IsSubnormal(Fmt, v)} \* the flushed lattice
 
 \* The value order, tabulated once from the exact values (Val, DLt) only:
 \* Rank[v] = number of distinct finite values strictly below the value of v.
-Rank == [v \in Fin |-> Cardinality({u \in CF : FLt(Fmt, u, v)})]
+\* (TLCEval: tabulate eagerly; otherwise TLC keeps the function lazy and re-evaluates the
+\* body at every application.  ASSUMEs are evaluated before constants are cached: they do
+\* not use the tables.)
+Rank == TLCEval([v \in Fin |-> Cardinality({u \in CF : FLt(Fmt, u, v)})])
 \* the same on the flushed lattice (ranks of zeros and normals among zeros and normals)
-LRank == [v \in {u \in Fin : ~IsSubnormal(Fmt, u)} |-> Cardinality({u \in Lattice : FLt(Fmt, u, v)})]
+LRank == TLCEval([v \in {u \in Fin : ~IsSubnormal(Fmt, u)} |-> Cardinality({u \in Lattice : FLt(Fmt, u, v)})])
 VLe(a, b) == Rank[a] <= Rank[b]
 VLt(a, b) == Rank[a] < Rank[b]
 VEq(a, b) == Rank[a] = Rank[b]
@@ -127,12 +130,9 @@ Bad == IF ~Set THEN {}
             \cup (IF y = x /\ z = x THEN OneBad ELSE {})
 Laws == IF Bad = {} THEN TRUE ELSE PrintT(<<"LAWS", Bad, x, y, z>>) /\ FALSE
 
-(* non-vacuity: the state space contains chains across zero, across a binade edge, through
-   the subnormal/normal edge *)
-ASSUME \E a, b, c \in FiniteBits(Fmt) : VLt(a, b) /\ VLt(b, c) /\ SignBit(Fmt, a) = 1 /\ SignBit(Fmt, c) = 0
-ASSUME \E a, b \in FiniteBits(Fmt) : VLt(a, b) /\ IsNormal(Fmt, a) /\ SignBit(Fmt, a) = 0
-                                       /\ ExpField(Fmt, a) + 1 < ExpField(Fmt, b)
-ASSUME \E a, b \in FiniteBits(Fmt) : IsSubnormal(Fmt, a) /\ IsNormal(Fmt, b)
+(* non-vacuity: the state space contains values of both signs, several binades, subnormals *)
+ASSUME \E a, b \in FiniteBits(Fmt) : SignBit(Fmt, a) = 1 /\ SignBit(Fmt, b) = 0 /\ ~IsZero(Fmt, a) /\ ~IsZero(Fmt, b)
+ASSUME \E a, b \in FiniteBits(Fmt) : IsNormal(Fmt, a) /\ IsNormal(Fmt, b) /\ ExpField(Fmt, a) + 1 < ExpField(Fmt, b)
+ASSUME \E a \in FiniteBits(Fmt) : IsSubnormal(Fmt, a)
 ASSUME \A t \in Thr : t >= 1 /\ NCmp(NFromInt(t), MinNormalMag(Fmt)) <= 0
-
 =============================================================================
